@@ -127,6 +127,26 @@ fn main() {
             rec_lib::rerecord(args.val("--in").expect("--in"), args.val("--trace").expect("--trace"));
             return;
         }
+        "stress-prefilter-counter" => {
+            // C14 probe: more than 2^29 prefilter calls in ONE search with the prefilter staying effective
+            // (average skip >= 8 bytes): `MIN_SKIP_BYTES * skips()` is computed in u32.
+            let calls = args.num("--calls", (1u64 << 29) + 4096) as usize;
+            let needle: Vec<u8> = [b"XYb".to_vec(), vec![b'a'; 39]].concat();
+            let f = memchr::memmem::Finder::new(&needle);
+            println!("{:?}", f);
+            println!("{:?}", memchr::arch::all::twoway::Finder::new(&needle));
+            let unit = b"XYaXaaaaaa";
+            let mut h = vec![0u8; calls * unit.len()];
+            for (i, b) in h.iter_mut().enumerate() {
+                *b = unit[i % unit.len()];
+            }
+            let t0 = std::time::Instant::now();
+            memchr::verif::start(&[]);
+            let r = guard(|| f.find(&h));
+            let (_, t) = memchr::verif::stop();
+            println!("result {:?} after {:?}; prefilter calls {} two-way steps {}", r, t0.elapsed(), t[memchr::verif::T_PRE], t[memchr::verif::T_TW]);
+            return;
+        }
         "record-iter" => {
             let n = rec_lib::record_iter(args.val("--trace").expect("--trace"), args.num("--count", 300) as usize, seed, args.val("--force").unwrap_or("avx2"));
             rep.count("records", n);
